@@ -37,7 +37,18 @@ const exprTag = "expr"
 var loggingOnce sync.Once
 
 // Compile compiles source string.
-func Compile(ctx context.Context, filePath, source string) (rel.Expr, error) {
+func Compile(ctx context.Context, filePath, source string) (_ rel.Expr, err error) {
+	// Several compile steps have no error path (string escapes, literal construction) and panic on
+	// source they cannot handle; source text must never be able to take the process down.
+	defer func() {
+		if r := recover(); r != nil {
+			if rerr, is := r.(error); is {
+				err = fmt.Errorf("%s: cannot compile: %w", filePath, rerr)
+			} else {
+				err = fmt.Errorf("%s: cannot compile: %v", filePath, r)
+			}
+		}
+	}()
 	dirpath := "."
 	if filePath != "" {
 		if filePath == NoPath {
@@ -50,7 +61,6 @@ func Compile(ctx context.Context, filePath, source string) (rel.Expr, error) {
 	// bundle run will always get absolute UNIX filePath. This needs to happen
 	// with windows too.
 	if !filepath.IsAbs(filePath) && !isRunningBundle(ctx) {
-		var err error
 		filePath, err = filepath.Rel(".", filePath)
 		if err != nil {
 			return nil, err
@@ -475,6 +485,9 @@ func (pc ParseContext) compileBinop(ctx context.Context, b ast.Branch, c ast.Chi
 	for i, arg := range args[1:] {
 		op := ops[i].One("").(ast.Leaf).Scanner()
 		f := binops[op.String()]
+		if f == nil {
+			return nil, fmt.Errorf("unknown operator %s\n%s", op, op.Context(parser.DefaultLimit))
+		}
 		rhs, err := pc.CompileExpr(ctx, arg.(ast.Branch))
 		if err != nil {
 			return nil, err
@@ -1065,7 +1078,7 @@ func handleAccessScanners(base, access parser.Scanner) parser.Scanner {
 
 func (pc ParseContext) compileRelation(ctx context.Context, b ast.Branch, c ast.Children) (rel.Expr, error) {
 	names := parseNames(c.(ast.One).Node.(ast.Branch)["names"].(ast.One).Node.(ast.Branch))
-	tuples := c.(ast.One).Node.(ast.Branch)["tuple"].(ast.Many)
+	tuples, _ := c.(ast.One).Node.(ast.Branch)["tuple"].(ast.Many) // {|a|} has none
 	tupleExprs := make([][]rel.Expr, 0, len(tuples))
 	for _, tuple := range tuples {
 		exprs, err := pc.compileExprs(ctx, tuple.(ast.Branch)["v"].(ast.Many)...)
